@@ -51,8 +51,13 @@ class HbScenario(cmdscn.CmdScenario):
     heartbeat for all running actions is delivered."""
 
     def __init__(self, name, prog, silent=(), passes=(), heartbeat_at=(),
-                 **kw):
+                 adhoc=0, batch_size=10, **kw):
         super(HbScenario, self).__init__(name, prog, **kw)
+        # adhoc: number of running ad-hoc action executions (no task: the
+        # checker cannot fail them and skips them) whose executor is lost
+        # too, created before the workflow starts
+        self.adhoc = adhoc
+        self.batch_size = batch_size
         self.silent = list(silent)
         self.passes = list(passes)
         self.heartbeat_at = list(heartbeat_at)
@@ -67,7 +72,8 @@ class HbScenario(cmdscn.CmdScenario):
     def kwargs(self):
         d = super(HbScenario, self).kwargs()
         d.update(silent=self.silent, passes=self.passes,
-                 heartbeat_at=self.heartbeat_at)
+                 heartbeat_at=self.heartbeat_at, adhoc=self.adhoc,
+                 batch_size=self.batch_size)
         return d
 
     def describe(self):
@@ -84,10 +90,19 @@ class HbScenario(cmdscn.CmdScenario):
             ('check_interval', INTERVAL, 'action_heartbeat'),
             ('max_missed_heartbeats', MAX_MISSED, 'action_heartbeat'),
             ('first_heartbeat_timeout', FIRST, 'action_heartbeat'),
-            ('batch_size', 10, 'action_heartbeat')]
+            ('batch_size', self.batch_size, 'action_heartbeat')]
         super(HbScenario, self).setup()
         w = env.W
         w.eager_executor = False
+        for i in range(self.adhoc):
+            m = env.post('start_action', action_name='verif.act',
+                         namespace='', action_input={'key': 'adhoc%d' % i},
+                         description='', params={'save_result': True})
+            env.deliver_now(m)
+            # its executor dies with the request
+            for x in list(w.msgs):
+                if x.method == 'run_action':
+                    w.msgs.remove(x)
         w.extra['lost'] = []
         w.extra['expired'] = []
         from mistral.services import action_heartbeat_checker as chk
@@ -170,7 +185,13 @@ class HbScenario(cmdscn.CmdScenario):
         is_checker = choice.kind == 'act' and getattr(
             choice.obj, 'owner', None) == 'checker'
         if is_checker and not ctx.new_exceptions:
+            notask = set(a['id'] for a in post['action_executions_v2']
+                         if not a['task_execution_id'])
             for aid, (lh, sync, st) in hb.items():
+                if aid in notask:
+                    # an action without a task cannot be failed by the
+                    # checker: it is skipped (and must not stop the others)
+                    continue
                 if st == 'RUNNING' and sync and lh is not None \
                         and lh < now - THRESH:
                     v.append('checker pass at t=%d left a silent '
@@ -365,6 +386,16 @@ def scenarios(tier):
                          silent=sync_keys[:1], heartbeat_at=[FIRST],
                          passes=[T0 + 1, FIRST + THRESH + 1,
                                  FIRST + THRESH + 3], results=res)
+        jobs.append((scn, 1 if quick else 3, 40 if quick else 900, 1))
+    # actions the checker cannot fail (ad-hoc runs without a task) fill its
+    # batch: the lost action of the workflow must still be failed
+    prog = programs()['single']
+    for adhoc, bs in ((1, 1), (2, 2), (2, 1), (1, 10)):
+        scn = HbScenario('hb/single/adhoc%d-batch%d' % (adhoc, bs), prog,
+                         silent=wfgen.action_keys(prog)[:1],
+                         passes=[T0 + 1, T0 + 2, T0 + 3],
+                         results={k: ['S'] for k in wfgen.action_keys(prog)},
+                         adhoc=adhoc, batch_size=bs)
         jobs.append((scn, 1 if quick else 3, 40 if quick else 900, 1))
     # an asynchronous action whose third party never answers is never
     # expired, however old it is
